@@ -675,6 +675,9 @@ class HttpParser(abc.ABC, Generic[_MsgT]):
         :param bool val: new state.
         """
         self._upgraded = val
+        if not val:
+            # also an upgrade that waits for the end of the request body
+            self._pending_upgrade = False
 
 
 class HttpRequestParser(HttpParser[RawRequestMessage]):
